@@ -771,6 +771,14 @@ XProg(v) ==
             <<XInj("InjectB", <<>>, "T1", <<ItS(1), ItL(4)>>, 1), XInj("InjectC", <<>>, "T9", <<ItS(2), ItL(5)>>, 1)>>)
          @@ [naming |-> [x \in {"pkg:b", "pkg:c", "alias:b", "alias:c", "SetB", "SetC"} |->
                           CASE x \in {"pkg:b", "pkg:c"} -> "store" [] x = "alias:b" -> "bstore" [] x = "alias:c" -> "cstore" [] OTHER -> "Set"]]
+    [] v = "multi-name-var-sets-bind" ->        \* the second name of a multi-name var spec holds the binding and the provider of its concrete type
+         mk(<<XF("P2", <<>>, "T2"), BindL("B", "I1", "*C"), XF("PC", <<"T2">>, "*C"), XF("Q", <<"I1">>, "T9")>>,
+            <<[SetD("SetA", "a", <<ItL(1)>>) EXCEPT !.grp = "g"], [SetD("SetB", "a", <<ItL(2), ItL(3)>>) EXCEPT !.grp = "g"]>>,
+            <<XInj("Inject", <<>>, "T9", <<ItS(1), ItS(2), ItL(4)>>, 1)>>)
+    [] v = "multi-name-var-sets-badsig" ->      \* the second name of a multi-name var spec holds a provider with an illegal result list
+         mk(<<XF("P2", <<>>, "T2"), [XF("PBad", <<>>, "T3") EXCEPT !.res = <<"value", "value">>], XF("P1", <<"T2">>, "T1")>>,
+            <<[SetD("SetA", "a", <<ItL(1)>>) EXCEPT !.grp = "g"], [SetD("SetB", "a", <<ItL(2)>>) EXCEPT !.grp = "g"]>>,
+            <<XInj("Inject", <<>>, "T1", <<ItS(1), ItL(3)>>, 1)>>)
     [] v = "same-set-twice-direct" ->          \* one set listed twice in the same call
          mk(<<XF("P2", <<>>, "T2"), XF("P1", <<"T2">>, "T1")>>, <<SetD("SetA", "a", <<ItL(1)>>)>>,
             <<XInj("Inject", <<>>, "T1", <<ItS(1), ItL(2), ItS(1)>>, 1)>>)
@@ -791,7 +799,7 @@ XVariants == {"star-foreign-tag-missing", "star-foreign-tag-ok", "two-files-firs
               "embedded-fields-struct", "embedded-fields-fieldsof", "same-text-values-two-packages",
               "sets-in-injector-file", "same-provider-twice-direct", "same-provider-twice-in-set",
               "cycle-through-pointer-types", "cycle-behind-bound-interface", "bind-to-field-type", "variadic-dup-param", "arg-returned-directly-full-sig",
-              "struct-both-forms-plus-superfluous", "same-name-packages-one-unused", "blank-param-conflicts-with-set", "embed-in-injector-file", "same-name-packages-poorer-set"}
+              "struct-both-forms-plus-superfluous", "same-name-packages-one-unused", "blank-param-conflicts-with-set", "embed-in-injector-file", "same-name-packages-poorer-set", "multi-name-var-sets-bind", "multi-name-var-sets-badsig"}
 FamilyX(p, vs) == \E v \in vs : p = XProg(v)
 
 (* ======================================================================== *)
